@@ -1391,6 +1391,65 @@ def rule_ctor_roundtrip(chk):
     chk.count("concrete NLDF plan classes whose new() is checked against their own constructor", len(classes))
 
 
+_REDUCERS = {"max", "min", "sum", "any", "all", "amax", "amin", "mean", "prod", "norm", "nanmax", "absmax"}
+
+
+def rule_batch_reduce(chk):
+    """batch-index discipline for screens and masks: a value computed by a reduction / comprehension over the WHOLE batch
+    of density matrices must not be used inside the per-element loop (`for idm in range(nset)`): the output of element
+    i would then depend on the other elements of the batch."""
+    for rel, name in BATCH_FUNCS:
+        fn = ks.locate(chk.tree, rel, name)[1]
+        params = [a_.arg for a_ in fn.args.args]
+        B = "dms" if "dms" in params else None
+        if B is None:
+            raise core.AnalysisError("%s:%s has no `dms` parameter" % (rel, name))
+        tainted = {}
+        assigns = sorted((n for n in ast.walk(fn) if isinstance(n, ast.Assign) and len(n.targets) == 1
+                          and isinstance(n.targets[0], ast.Name)), key=lambda n: n.lineno)
+        for n in assigns:
+            why = None
+            for x in ast.walk(n.value):
+                if isinstance(x, (ast.ListComp, ast.GeneratorExp, ast.SetComp)):
+                    if any(B in ks._names(g.iter) for g in x.generators):
+                        why = "a comprehension over all of `%s`" % B
+                elif isinstance(x, ast.Call) and (pf.call_name(x) or "").split(".")[-1] in _REDUCERS:
+                    recv = [x.func.value] if isinstance(x.func, ast.Attribute) else []
+                    if any(B in ks._names(a_) for a_ in list(x.args) + recv):
+                        why = "the reduction `%s` over `%s`" % (pf.src(x)[:50], B)
+                elif isinstance(x, ast.Name) and x.id in tainted and why is None:
+                    why = "`%s`, %s" % (x.id, tainted[x.id][0])
+            if why:
+                tainted[n.targets[0].id] = (why, n)
+            else:
+                tainted.pop(n.targets[0].id, None) if False else None
+        loops = [lp for lp in ast.walk(fn) if isinstance(lp, ast.For) and "nset" in ks._names(lp.iter)]
+        gens = {g.name for g in ast.walk(fn) if isinstance(g, ast.FunctionDef) and g is not fn
+                and any(isinstance(y, (ast.Yield, ast.YieldFrom)) for y in ast.walk(g))
+                and any(lp in loops for lp in ast.walk(g))}
+        loops += [lp for lp in ast.walk(fn) if isinstance(lp, ast.For) and isinstance(lp.iter, ast.Call)
+                  and pf.call_name(lp.iter) in gens]
+        inst = "%s:%s nothing reduced over the whole batch is used per batch element" % (rel, name)
+        bad = None
+        for lp in loops:
+            for x in ast.walk(lp):
+                if isinstance(x, ast.Name) and isinstance(x.ctx, ast.Load) and x.id in tainted \
+                        and tainted[x.id][1].lineno < lp.lineno:
+                    bad = bad or (x, lp)
+        if bad:
+            x, lp = bad
+            st = x
+            while not isinstance(st, ast.stmt):
+                st = pf.parent(st)
+            chk.violation("batch-index", rel, name, "%s reduced over the batch, used per element" % x.id, x.lineno,
+                          "`%s` is %s (`%s`), and it is used in `%s` inside the per-element loop `%s`: the result for one "
+                          "density matrix depends on the other matrices of the batch" % (
+                              x.id, tainted[x.id][0], pf.src(tainted[x.id][1])[:90], pf.src(st)[:70], batch.head_text(lp)[:50]),
+                          instance=inst)
+        else:
+            chk.ok("batch-index", inst, nontrivial=bool(loops))
+
+
 # ----------------------------------------------------------------------------
 # round 14: plan-init, out-shared, attr-init
 # ----------------------------------------------------------------------------
@@ -1775,6 +1834,50 @@ def _ptext(p):
     return " + ".join(parts)
 
 
+def _table_chunks(chk, fn, fq, inst, lp, lv, env, bufs, x1):
+    """chunk bounds read from a table: start = f(B[c]), stop = g(B[c + 1]).  Adjacent chunks are disjoint and gap-free
+    iff start(c + 1) == stop(c), i.e. f and g are the same function of B[c + 1].  Returns True when decided."""
+    lo = up = None
+    for n in ast.walk(lp):
+        if isinstance(n, ast.Subscript) and isinstance(n.value, ast.Name) and n.value.id in bufs | {x1}:
+            sl = n.slice.elts[0] if isinstance(n.slice, ast.Tuple) and n.slice.elts else n.slice
+            if isinstance(sl, ast.Slice) and isinstance(sl.lower, ast.Name) and isinstance(sl.upper, ast.Name):
+                lo, up = sl.lower.id, sl.upper.id
+                break
+    if lo is None or lo not in env or up not in env:
+        return False
+
+    def table_ref(e):
+        refs = [x for x in ast.walk(e) if isinstance(x, ast.Subscript) and isinstance(x.value, ast.Name)
+                and lv in ks._names(x.slice)]
+        return refs[0] if len(refs) == 1 else None
+    rl, ru = table_ref(env[lo]), table_ref(env[up])
+    if rl is None or ru is None or rl.value.id != ru.value.id:
+        return False
+    B = rl.value.id
+    if pf.src(rl.slice) != lv or pf.src(ru.slice).replace(" ", "") != "%s+1" % lv:
+        return False
+    f = pf.src(env[lo]).replace(pf.src(rl), "@")
+    g = pf.src(env[up]).replace(pf.src(ru), "@")
+    bdef = env.get(B)
+    is_linspace = isinstance(bdef, ast.Call) and (pf.call_name(bdef) or "").split(".")[-1] == "linspace"
+    accumulates = any(isinstance(n, ast.AugAssign) and isinstance(n.target, ast.Subscript)
+                      and isinstance(n.target.value, ast.Name) and n.target.value.id in bufs for n in ast.walk(lp))
+    if f == g:
+        return False  # contiguous by construction; coverage of [0, N) is left to the general analysis
+    if is_linspace and accumulates and {"floor", "ceil", "round", "rint", "int"} & (
+            {w for w in ("floor", "ceil", "round", "rint") if w in f or w in g} | {"int"}):
+        chk.violation("chunk-loop", XE, fq, "chunks %s[%s:%s] from table %s" % (x1, lo, up, B), lp.lineno,
+                      "chunk c ends at `%s` and chunk c + 1 starts at `%s` of the same table entry %s[c + 1] = `%s`; the two "
+                      "roundings differ whenever that entry is not an integer (np.linspace gives non-integer bounds unless "
+                      "the number of chunks divides N), so adjacent chunks overlap by one sample and `+=` accumulates that "
+                      "sample twice: the result depends on the chunk size" % (
+                          g.replace("@", "%s[c + 1]" % B), f.replace("@", "%s[c + 1]" % B), B, pf.src(bdef)[:60]),
+                      instance=inst)
+        return True
+    return False
+
+
 def rule_chunk_loop(chk):
     """KernelEvaluator.__call__: the chunks [start(c), end(c)) for c = 0 .. K-1 must tile [0, N).  start and end are
     brought to the form S0 + D*c (+ L) over opaque atoms; the verdict is
@@ -1819,6 +1922,8 @@ def rule_chunk_loop(chk):
                     if isinstance(a_, ast.Name):
                         body_assign[a_.id] = b_
     env.update(body_assign)
+    if _table_chunks(chk, fn, fq, inst, lp, lv, env, bufs, x1):
+        return
     P0 = _Poly(env, {})
     Npoly = {("%s.shape[0]" % x1,): 1}
     args = lp.iter.args
@@ -2334,6 +2439,7 @@ def _analyse_rules(chk):
     chk.guard(rule_ctor_roundtrip)
     chk.guard(rule_chunk_loop)
     chk.guard(rule_memo)
+    chk.guard(rule_batch_reduce)
     chk.guard(rule_plan_init)
     chk.guard(rule_out_shared)
     chk.guard(rule_attr_init)
@@ -2371,6 +2477,15 @@ def _analyse_rules(chk):
         "aliasing that goes through object state between two calls (e.g. arrays stored in self._cache and written "
         "by a later call)",
     ]
+
+
+def _linspace_chunks(text):
+    a = "        for i0 in range(0, N, dn):\n            i1 = min(N, i0 + dn)\n"
+    if a not in text:
+        return None
+    return text.replace(a, "        nchunk = max(1, -(-N // dn))\n        bounds = np.linspace(0, N, nchunk + 1)\n"
+                        "        for c in range(nchunk):\n"
+                        "            i0, i1 = int(np.floor(bounds[c])), int(np.ceil(bounds[c + 1]))\n", 1)
 
 
 def mutants(tree):
@@ -2517,6 +2632,12 @@ def mutants(tree):
                "", expect="stale-identity"),
         Mutant("molecule snapshot compared without its _env component", NUMINT,
                "        new_data = (mol._atm, mol._bas, mol._env)\n", "        new_data = (mol._atm, mol._bas)\n", expect="reinit"),
+        Mutant("vmat screening uses the largest density matrix of the batch", NUMINT,
+               "    pair_mask = mol.get_overlap_cond() < -np.log(ni.cutoff)\n",
+               "    dm_cond = np.max([mol.condense_to_shell(dm, \"absmax\") for dm in dms], axis=0)\n"
+               "    pair_mask = np.exp(-mol.get_overlap_cond()) * dm_cond > ni.cutoff\n", count=1, expect="batch-index"),
+        Mutant("equal-size chunks from linspace with floored start and ceiled end", XE, "", "", fn=_linspace_chunks,
+               expect="chunk-loop"),
         Mutant("short tail folded into the chunk without leaving the loop", XE,
                "            i1 = min(N, i0 + dn)\n",
                "            i1 = min(N, i0 + dn)\n            if N - i1 < 100:\n                i1 = N\n", expect="chunk-loop"),
